@@ -300,11 +300,13 @@ func oracleC03(t *Trace, v *vset) {
 			// r3: no launch once the tolerance is exceeded (launcher model over the
 			// applied terminal writes and the arrival of each sequence's first write)
 			if tol >= 0 {
-				var failSeqs []int // seq numbers (event) of first applied Failed write per sequence
+				// event at which the engine learnt that the sequence's Failed state was
+				// stored (the answer of the write; the write itself when writes take no time)
+				var failSeqs []int
 				for si := range b.Seqs {
 					for _, w := range t.WByPath[seqPath(l.Plan, bi, si)] {
 						if w.St.Status == StFailed {
-							failSeqs = append(failSeqs, w.Seq)
+							failSeqs = append(failSeqs, w.AckSeq)
 							break
 						}
 					}
